@@ -167,6 +167,12 @@ def gen(ctx, rng):
         cube = rng.integers(-20, 20, size=(2, 2, len(lab)))
         cube = np.where(rng.random(cube.shape) < 0.2, ND, cube)
         macc.append(dict(xx=cube.tolist(), grp=lab, nd=ND, dtype=["int16", "float32", "int32", "int64"][k % 4]))
+    # the nodata keyword (value 0 included) with the attribute absent or different
+    for k, (ndk, kw) in enumerate([(0, "noattr"), (0, "other"), (-1, "other"), (255, "noattr")]):
+        lab = [0, 0, 1, 1, 2, 2, 0, 1]
+        cube = rng.integers(1, 40, size=(2, 2, len(lab)))
+        cube = np.where(rng.random(cube.shape) < 0.3, ndk, cube)
+        macc.append(dict(xx=cube.tolist(), grp=lab, nd=ndk, dtype=["int16", "float32", "int32", "int64"][k % 4], kw=kw))
     return rolling, pairs, acc, mean, macc
 
 
@@ -275,6 +281,10 @@ def run(ctx):
             mmeta.append(m)
     for b, r in zip(macc, res["mean_acc"]):
         cube = np.array(b["xx"])
+        if "error" in r:
+            spec_fail.append((dict(kind="mean_grp_accessor", nd=b["nd"], keyword=b.get("kw"), xx=b["xx"], grp=b["grp"]),
+                              "mean_grp(groups, nodata=%r) raised %s" % (b["nd"], r["error"])))
+            continue
         o = np.array(r["out"])
         ng = len(set(b["grp"]))
         if r["dims"] != ["y", "x", "time"]:
